@@ -28,6 +28,8 @@ struct Config {
 	bool check_ip = true;              // false -> server gets -c
 	int forward_port = 0;              // -b
 	int mtu = 0;                       // server -m
+	bool pass_env_client = false;      // password handed to the client in IODINE_PASS instead of -P
+	bool pass_env_server = false;      // password handed to the server in IODINED_PASS instead of -P
 	uint32_t srv_seed = 7, cli_seed = 11;
 	sim::Addr nameserver;              // where clients send queries (default: the server itself)
 	bool client_v6 = false;
